@@ -306,3 +306,34 @@ package values
 //@ panics nothing
 //@ requires arg: substr != nil
 //@ assigns nothing
+
+// ---- calling a filter through reflection (C08, C01) --------------------------------------
+// MustConvert and the function-valued default parameters are outside the contracts.
+//@ func values.MustConvert
+//@ unverified
+//@ props C08 C01
+//@ panics values.TypeError
+//@ assigns nothing
+
+//@ func values.makeConstantFunction
+//@ unverified
+//@ props C08 C01
+//@ panics nothing
+//@ assigns nothing
+//@ func values.makeIdentityFunction
+//@ unverified
+//@ props C08 C01
+//@ panics nothing
+//@ assigns nothing
+
+// more arguments than the filter has parameters is a CallParityError, never an index panic;
+// otherwise one converted argument per parameter (zero values for the missing ones)
+//@ func values.convertCallArguments
+//@ props C08 C01
+//@ panics values.TypeError
+//@ requires fn: rv_valid(fn) && !rv_iface(fn) && kind(rv_val(fn)) == reflect.Func
+//@ ensures parity: !tvariadic(typeof(rv_val(fn))) && len(args) > tnumin(typeof(rv_val(fn))) ==> err != nil && is(err, *values.CallParityError) && as(err, *values.CallParityError).NumArgs == len(args) && as(err, *values.CallParityError).NumParams == tnumin(typeof(rv_val(fn)))
+//@ ensures accepted: tvariadic(typeof(rv_val(fn))) || len(args) <= tnumin(typeof(rv_val(fn))) ==> err == nil
+//@ ensures oneEach: err == nil && !tvariadic(typeof(rv_val(fn))) ==> len(results) == tnumin(typeof(rv_val(fn)))
+//@ loop 1 invariant size: fresh(results) && len(results) == ite(tvariadic(typeof(rv_val(fn))), max(len(args), tnumin(typeof(rv_val(fn))) - 1), tnumin(typeof(rv_val(fn)))) && (tvariadic(typeof(rv_val(fn))) || len(args) <= tnumin(typeof(rv_val(fn))))
+//@ loop 2 invariant size: fresh(results) && len(results) == ite(tvariadic(typeof(rv_val(fn))), max(len(args), tnumin(typeof(rv_val(fn))) - 1), tnumin(typeof(rv_val(fn)))) && len(args) <= i
